@@ -64,6 +64,9 @@ Definition sub64 (a b : N) : N := w64 (a + 18446744073709551616 - w64 b).  (* ui
 Definition mul64 (a b : N) : N := w64 (a * b).
 Definition sub32 (a b : N) : N := w32 (a + 4294967296 - w32 b).  (* int a - b, two's complement image *)
 Definition shl64 (a b : N) : N := w64 (N.shiftl a b).
+Definition shl32 (a b : N) : N := w32 (N.shiftl a b).   (* unsigned int a << b *)
+Definition sub32u (a b : N) : N := w32 (a + 4294967296 - w32 b).  (* unsigned int a - b *)
+Definition mul32 (a b : N) : N := w32 (a * b).
 
 (* __builtin_bswap64 *)
 Definition bswap64 (x : N) : N :=
@@ -129,3 +132,31 @@ Definition uses_sgl_array (j : job_view) : bool :=
 
 Definition well_formed (j : job_view) : bool :=
   widths_ok j && implb (uses_sgl_array j) (sgl_view_ok j).
+
+(* ---- the checked asynchronous burst submission (submit_burst_and_check, run_check = 1) ----
+   What the burst-level checks can observe: the array pointer (NULL or not), n_jobs, the free space
+   in the job ring, and per array entry: whether the pointer is NULL, whether it is the ring slot
+   expected at that position (jobs[i] == JOBS(state, job_offset), job_offset advancing from
+   state->next_job -- the ring arithmetic itself belongs to C05), the descriptor it points to and
+   the two suite_id words stored in it (offsets 200 and 204; written by imb_set_session()). *)
+Record burst_entry := mk_burst_entry {
+  be_null : bool;          (* jobs[i] == NULL *)
+  be_in_order : bool;      (* jobs[i] == JOBS(state, job_offset) *)
+  be_job : job_view;       (* the job descriptor jobs[i] points to *)
+  be_suite0 : N;           (* jobs[i]->suite_id[0] *)
+  be_suite1 : N            (* jobs[i]->suite_id[1] *)
+}.
+Record burst_view := mk_burst_view {
+  bv_jobs_null : bool;     (* jobs == NULL *)
+  bv_n_jobs : N;           (* n_jobs (uint32_t) *)
+  bv_queue_space : N;      (* queue_sz_remaining(state) (uint32_t) *)
+  bv_entries : list burst_entry   (* jobs[0 .. n_jobs-1] *)
+}.
+(* verdict of the checked burst submission: accepted (all jobs are then dispatched), or rejected
+   with an error code; [Some i] = jobs[i] is marked IMB_STATUS_INVALID_ARGS and moved to jobs[0],
+   [None] = whole-burst error, no job is marked *)
+Inductive burst_verdict := BurstAccept | BurstReject (errno : N) (invalid_job : option N).
+
+Definition burst_well_formed (b : burst_view) : bool :=
+  (N.of_nat (length (bv_entries b)) =? bv_n_jobs b) && u32_ok (bv_n_jobs b) && u32_ok (bv_queue_space b) &&
+  forallb (fun e => well_formed (be_job e) && u32_ok (be_suite0 e) && u32_ok (be_suite1 e)) (bv_entries b).
